@@ -3,6 +3,7 @@
 package signaling
 
 import (
+	"encoding/json"
 	"encoding/base64"
 	"encoding/hex"
 	"fmt"
@@ -229,8 +230,12 @@ type c20Listener struct {
 
 func c20Payload(m int) int { return (m*7919+13)%99991 + 1 }
 
+// Messages come in three shapes (by m mod 3) so that consecutive publications on one subject differ in which
+// optional members they carry: a receiver that lets members of an earlier message show through in a later one
+// ("delivered ... unmodified") is seen: 0 no client message, 1 a client message whose sender has a user id and a
+// recipient, 2 a client message whose sender has none and no recipient.
 func c20Message(m int) *AsyncMessage {
-	return &AsyncMessage{
+	msg := &AsyncMessage{
 		Type: "c20",
 		Id:   strconv.Itoa(m),
 		AsyncRoom: &AsyncRoomMessage{
@@ -238,6 +243,18 @@ func c20Message(m int) *AsyncMessage {
 			SessionId: strconv.Itoa(c20Payload(m)),
 		},
 	}
+	switch m % 3 {
+	case 1:
+		msg.Message = &ServerMessage{Type: "message", Message: &MessageServerMessage{
+			Sender:    &MessageServerMessageSender{Type: "session", SessionId: "s" + msg.Id, UserId: "u" + msg.Id},
+			Recipient: &MessageClientMessageRecipient{Type: "user", UserId: "r" + msg.Id},
+			Data:      json.RawMessage(`{"m":` + msg.Id + `}`)}}
+	case 2:
+		msg.Message = &ServerMessage{Type: "message", Message: &MessageServerMessage{
+			Sender: &MessageServerMessageSender{Type: "session", SessionId: "s" + msg.Id},
+			Data:   json.RawMessage(`{"m":` + msg.Id + `}`)}}
+	}
+	return msg
 }
 
 // what arrived: message id and payload; anything unexpected in the message makes the payload 0
@@ -247,8 +264,28 @@ func c20Read(msg *AsyncMessage) (int, int) {
 		return 999999, 0
 	}
 	if msg.Type != "c20" || msg.AsyncRoom == nil || msg.AsyncRoom.Type != "verif" || msg.AsyncRoom.ClientType != "" ||
-		msg.Message != nil || msg.Room != nil || msg.Permissions != nil || msg.SendOffer != nil {
+		msg.Room != nil || msg.Permissions != nil || msg.SendOffer != nil {
 		return m, 0
+	}
+	switch m % 3 {
+	case 0:
+		if msg.Message != nil {
+			return m, 0
+		}
+	default:
+		sm := msg.Message
+		if sm == nil || sm.Type != "message" || sm.Message == nil || sm.Message.Sender == nil || sm.Control != nil || sm.Event != nil || sm.Error != nil ||
+			sm.Message.Sender.Type != "session" || sm.Message.Sender.SessionId != "s"+msg.Id || string(sm.Message.Data) != `{"m":`+msg.Id+`}` {
+			return m, 0
+		}
+		if m%3 == 1 {
+			if sm.Message.Sender.UserId != "u"+msg.Id || sm.Message.Recipient == nil || sm.Message.Recipient.Type != "user" ||
+				sm.Message.Recipient.UserId != "r"+msg.Id || sm.Message.Recipient.SessionId != "" {
+				return m, 0
+			}
+		} else if sm.Message.Sender.UserId != "" || sm.Message.Recipient != nil {
+			return m, 0
+		}
 	}
 	pl, err := strconv.Atoi(msg.AsyncRoom.SessionId)
 	if err != nil {
